@@ -79,6 +79,7 @@ def hyp_run(ctx, strategy, prop_fn, max_examples, batches=4, seed_salt=0):
     for b in range(batches):
         if ctx.out_of_time():
             ctx.stats.truncated = True; break
+        if len(ctx.stats.failures) >= 2: break        # a broken tree: two shrunk failures per worker are enough, keep the run short
         sd = (ctx.seed * 1000003 + ctx.worker * 1009 + b * 17 + seed_salt) & 0xFFFFFFFF
         last = {}
         def wrapped(case):
@@ -151,8 +152,9 @@ def write_evidence(mod, tier, seed, merged, wall, violations, extra_cov=None):
     if extra_cov: cov.update(extra_cov)
     ev = {'property_id': mod.ID, 'tier': tier, 'seed': seed, 'level': getattr(mod, 'LEVEL', 'exploration'),
           'coverage': cov, 'assumptions': getattr(mod, 'ASSUMPTIONS', []), 'wall_s': round(wall, 2), 'violations': violations}
-    os.makedirs(os.path.join(VERIF, 'evidence'), exist_ok=True)
-    path = os.path.join(VERIF, 'evidence', mod.ID + '.json')
+    evdir = os.environ.get('VERIF_EVIDENCE_DIR') or os.path.join(VERIF, 'evidence')
+    os.makedirs(evdir, exist_ok=True)
+    path = os.path.join(evdir, mod.ID + '.json')
     tmp = path + '.tmp'
     with open(tmp, 'w') as f:
         json.dump(ev, f, indent=1, default=repr)
@@ -174,7 +176,7 @@ def confirm(mod, case, n=3):
     return True, details[-1]
 
 def save_finding(pid, case, detail):
-    d = os.path.join(VERIF, 'findings', pid)
+    d = os.path.join(os.environ.get('VERIF_FINDINGS_DIR') or os.path.join(VERIF, 'findings'), pid)
     os.makedirs(d, exist_ok=True)
     path = os.path.join(d, '%s.json' % xv.sha(case))
     with open(path, 'w') as f:
@@ -270,6 +272,7 @@ def run_check(pid, tier, replay_path=None):
         sig = xv.sha(f['case'])
         if sig in seen_sig: continue
         seen_sig.add(sig)
+        if len(confirmed) >= 8: break                 # enough replay files for one run
         fails, detail = confirm(mod, f['case'], 3)
         if fails:
             confirmed.append((f['case'], detail, None))
